@@ -282,10 +282,18 @@ func (s *schedRun) one(bno int, b SchedBehaviour) error {
 			startReader(st.Arg)
 			if w := s.sched.Wait(st.Arg, s.timeout); w != "@begin" {
 				s.note("%s after RBegin at %q", st.Arg, w)
+			} else if bno%2 == 1 {
+				// the model has no step between "transaction open" and "attached"; the code looks the cache
+				// object up first and tries its lock later: in every other behaviour the look-up happens now
+				if w := s.advance(st.Arg); w != "@tryR" && w != "@op" && w != "@end" {
+					s.note("%s after look-up at %q", st.Arg, w)
+				}
 			}
 		case "RAttachNew", "RAttachShared", "RAttachCold":
 			a := st.Arg
-			if s.where(a) == "@begin" {
+			if s.where(a) == "@tryR" {
+				s.advance(a)
+			} else if s.where(a) == "@begin" {
 				// (an access that creates the cache object passes no lock gate)
 				if w := s.advance(a); w == "@tryR" {
 					s.advance(a) // attach; parks at the first storage read of the search, or at the end
